@@ -79,6 +79,35 @@ fn assemble(p: &Parts) -> Vec<u8> {
 fn deep_meta(depth: usize, variant: i64) -> Vec<u8> {
     let mut t = vec![];
     t.extend_from_slice(&META_KEY);
+    // nesting through different value markers: maps (the only container the format uses today),
+    // arrays, and alternations of both (a reader that grows support for a new container must bound it too)
+    match (variant / 2) % 4 {
+        1 => {
+            t.extend_from_slice(&[b'U', 1, b'k']);
+            for _ in 0..depth {
+                t.push(b'[');
+            }
+            if variant % 2 == 0 {
+                for _ in 0..depth {
+                    t.push(b']');
+                }
+                t.push(b'}');
+                t.push(b'}');
+            }
+            return t;
+        }
+        2 => {
+            for i in 0..depth {
+                if i % 2 == 0 {
+                    t.extend_from_slice(&[b'U', 1, b'k', b'[']);
+                } else {
+                    t.push(b'{');
+                }
+            }
+            return t;
+        }
+        _ => {}
+    }
     for _ in 0..depth {
         t.extend_from_slice(&[b'U', 1, b'k', b'{']);
     }
